@@ -13,8 +13,11 @@ type scriptRand struct {
 	ctr     uint64
 	buf     []byte
 	Special []byte
-	Reads   int
-	Bytes   int
+	// SpecialOnce: only the first matching read is answered with Special (a second ApplyPreset of
+	// the same connection then draws fresh seed words from the stream)
+	SpecialOnce bool
+	Reads       int
+	Bytes       int
 }
 
 func newScriptRand(label string) *scriptRand { return &scriptRand{tag: sha256.Sum256([]byte(label))} }
@@ -24,6 +27,9 @@ func (s *scriptRand) Read(p []byte) (int, error) {
 	s.Bytes += len(p)
 	if s.Special != nil && len(p) == len(s.Special) {
 		copy(p, s.Special)
+		if s.SpecialOnce {
+			s.Special = nil
+		}
 		return len(p), nil
 	}
 	for i := range p {
